@@ -118,11 +118,13 @@ def term(f, j):
         return 'IFS(%sG1,%s,TRUE,0)' % (P, x)
     if f == 7:
         return 'IFNA(%sH1,%s)' % (P, x)
+    if f == 8:
+        return 'IF(%sG2,%s,0)' % (P, x)       # a second, independent guard
     raise ValueError(f)
 
 
-def wb_dict(mat, g, h):
-    d = {P + 'G1': bool(g), P + 'H1': ('#N/A' if h else 0)}
+def wb_dict(mat, g, h, g2=None):
+    d = {P + 'G1': bool(g), P + 'H1': ('#N/A' if h else 0), P + 'G2': bool(g if g2 is None else g2)}
     for i, c in enumerate(CELLS):
         terms = ['%d' % (i + 1)] + [term(f, j) for j, f in enumerate(mat[i]) if f]
         d[P + c] = '=' + '+'.join(terms)
@@ -137,12 +139,12 @@ def wb_dict(mat, g, h):
     return d
 
 
-def calc_file(mat, g, h):
+def calc_file(mat, g, h, g2=None):
     """documented path: a real .xlsx loaded with finish(circular=True)."""
     import openpyxl, formulas
     from openpyxl.workbook.defined_name import DefinedName
     from xl.wbspec import Scratch
-    d = wb_dict(mat, g, h)
+    d = wb_dict(mat, g, h, g2)
     wb = openpyxl.Workbook()
     ws = wb.active
     ws.title = 'S'
@@ -170,26 +172,41 @@ def calc_file(mat, g, h):
     return read_solution(s)
 
 
-def active(f, g, h):
-    return f in (1, 3, 4) or (f in (2, 6) and g) or (f in (5, 7) and h)
+def active(f, g, h, g2=None):
+    return f in (1, 3, 4) or (f in (2, 6) and g) or (f in (5, 7) and h) or (f == 8 and (g if g2 is None else g2))
 
 
-def oracle(mat, g, h):
-    """Guards are constants, so the set of selected (active) edges is static: a cell is on an
-    unavoidable cycle iff it lies on a cycle of active edges; a cell that reaches such a cell
-    through active edges is an error; every other cell has its ordinary lazy value."""
-    act = {i: [j for j, f in enumerate(mat[i]) if f and active(f, g, h)] for i in range(3)}
+def oracle(mat, g, h, g2=None):
+    """Guards are constants, so the set of selected (active) edges is static.
+    * a cell on a cycle of selected edges is on an unavoidable cycle: #CIRC!; a cell that reaches one: an error;
+    * a cell whose static cycles (selected or not) all have every lazy branch unselected must have its lazy value
+      ("a cycle that closes only through such branches, none of them selected, does resolve");
+    * a cell on (or reaching) a static cycle that is avoided but has SOME selected lazy branch is left open by the
+      statement: the lazy value or the circular error are both accepted (returned as ('AMB', value))."""
+    act = {i: [j for j, f in enumerate(mat[i]) if f and active(f, g, h, g2)] for i in range(3)}
+    stat = {i: [j for j, f in enumerate(mat[i]) if f] for i in range(3)}
+    lazy = lambda i, j: mat[i][j] in (2, 5, 6, 7, 8)
 
-    def reach(i):
-        seen, todo = set(), list(act[i])
+    def reach(graph, i):
+        seen, todo = set(), list(graph[i])
         while todo:
             x = todo.pop()
             if x not in seen:
                 seen.add(x)
-                todo.extend(act[x])
+                todo.extend(graph[x])
         return seen
-    R = {i: reach(i) for i in range(3)}
+    R = {i: reach(act, i) for i in range(3)}
     circ = {i for i in range(3) if i in R[i]}
+    # static simple cycles (3 nodes: brute force over node sequences)
+    amb = set()
+    for n in (1, 2, 3):
+        for seq in itertools.permutations(range(3), n):
+            edges = [(seq[k], seq[(k + 1) % n]) for k in range(n)]
+            if all(b in stat[a] for a, b in edges):
+                sel = [e for e in edges if lazy(*e) and e[1] in act[e[0]]]
+                unsel = [e for e in edges if e[1] not in act[e[0]]]
+                if unsel and sel:
+                    amb.update(seq)
     val = {}
 
     def ev(i):
@@ -203,11 +220,14 @@ def oracle(mat, g, h):
         return val[i]
     for i in range(3):
         ev(i)
+    for i in range(3):
+        if isinstance(val[i], float) and (i in amb or R[i] & amb):
+            val[i] = ('AMB', val[i])
     return val
 
 
-def stable_oracle(mat, g, h):
-    return oracle(mat, g, h)
+def stable_oracle(mat, g, h, g2=None):
+    return oracle(mat, g, h, g2)
 
 
 class Hang(Exception):
@@ -271,11 +291,15 @@ def read_solution(s):
 def judge(got, exp, desc, fails, label):
     for i, c in enumerate(CELLS):
         a, b = got[c], exp[i]
-        ok = (a == CIRC) if b == CIRC else (a in (CIRC, 'ERR')) if b == 'ERR' else (a == b)
+        if isinstance(b, tuple):          # left open by the statement: the lazy value, or the circular error / an error
+            ok = a == b[1] or a in (CIRC, 'ERR')
+        else:
+            ok = (a == CIRC) if b == CIRC else (a in (CIRC, 'ERR')) if b == 'ERR' else (a == b)
         if not ok:
             fails.append(Fail('cell-value', got='%s=%s' % (c, a), exp='%s=%s' % (c, b), path=label, **desc))
             return
-    a = exp[0]
+    # dependents are judged against what A1 actually is (already judged above)
+    a = got['A1']
     want = {'D1': a + 100 if isinstance(a, float) else 'ERR', 'E1': a if isinstance(a, float) else 7.0, 'F1': not isinstance(a, float), 'K2': 10.0}
     for c, w in want.items():
         x = got[c]
@@ -286,14 +310,15 @@ def judge(got, exp, desc, fails, label):
 
 
 def run_wb(case):
-    _, flat, g, h, sched = case
+    _, flat, g, h, sched = case[:5]
+    g2 = case[5] if len(case) > 5 else None
     mat = [flat[0:3], flat[3:6], flat[6:9]]
-    exp = stable_oracle(mat, g, h)
+    exp = stable_oracle(mat, g, h, g2)
     if exp is None:
         return result(0, ['skip:oracle-order-dependent'])
-    desc = dict(mat=json.dumps(flat), g=g, h=h)
+    desc = dict(mat=json.dumps(flat), g=g, h=h, g2=g2)
     fails, oc, ex = [], [], 0
-    d = wb_dict(mat, g, h)
+    d = wb_dict(mat, g, h, g2)
     named = any(f == 4 for f in flat)
     # names: only the documented file path (from_dict wires name inverses before cycles are analysed)
     runs = [] if named else [('default', None, None)]
@@ -319,7 +344,7 @@ def run_wb(case):
     for label, order, seam in runs:
         ex += 1
         try:
-            got = calc_file(mat, g, h) if order == 'file' else calc(d, order, seam)
+            got = calc_file(mat, g, h, g2) if order == 'file' else calc(d, order, seam)
         except Hang:
             fails.append(Fail('hang', got='no result after 60 s of CPU time', exp='termination', path=label, **desc))
             continue
@@ -327,7 +352,7 @@ def run_wb(case):
             fails.append(Fail('escape', got=type(getattr(e, 'ex', e)).__name__ + ':' + str(e)[:80], exp='a solution', path=label, **desc))
             continue
         judge(got, exp, desc, fails, label)
-    kinds = ''.join('C' if exp[i] == CIRC else 'E' if exp[i] == 'ERR' else 'n' for i in range(3))
+    kinds = ''.join('C' if exp[i] == CIRC else 'E' if exp[i] == 'ERR' else 'a' if isinstance(exp[i], tuple) else 'n' for i in range(3))
     return result(ex, ['wb:' + kinds], fails)
 
 
@@ -381,6 +406,16 @@ def wb_cases(tier):
         idx = sum(f * 3 ** k for k, f in enumerate(flat))
         for g in ((bool(idx % 2),) if q else (True, False)):
             yield ['wb', list(flat), g, False, (idx % (97 if q else 11) == 0)]
+    # two independent guards: every workbook over {absent, direct, IF(G1), IF(G2)} on the 6 non-self edges with the guards disagreeing
+    offd = [k for k in range(9) if k // 3 != k % 3]
+    for n_, forms in enumerate(itertools.product((0, 1, 2, 8), repeat=6)):
+        if 2 not in forms or 8 not in forms or (q and n_ % 3):
+            continue
+        flat = [0] * 9
+        for k, f in zip(offd, forms):
+            flat[k] = f
+        for g, g2 in ((True, False), (False, True)):
+            yield ['wb', flat, g, False, n_ % 40 == 0, g2]
     # extended edge forms as deviations from every direct/absent graph on the 6 non-self edges
     offdiag = [k for k in range(9) if k // 3 != k % 3]
     for bits in range(64):
@@ -405,7 +440,15 @@ def seed_family():
     for flat in itertools.product((0, 1, 2), repeat=9):
         idx = sum(f * 3 ** k for k, f in enumerate(flat))
         if idx % 41 == 0:
-            fam.append((list(flat), True, False))
+            fam.append((list(flat), True, False, None))
+    offd = [k for k in range(9) if k // 3 != k % 3]
+    for n_, forms in enumerate(itertools.product((0, 2, 8), repeat=6)):
+        if 2 in forms and 8 in forms and n_ % 2 == 0:
+            flat = [0] * 9
+            for k, f in zip(offd, forms):
+                flat[k] = f
+            fam.append((flat, True, False, False))
+            fam.append((flat, False, False, True))
     return fam
 
 
@@ -413,10 +456,10 @@ def seed_worker():
     from mc import core
     core.bind_repo()
     out = {}
-    for i, (flat, g, h) in enumerate(seed_family()):
+    for i, (flat, g, h, g2) in enumerate(seed_family()):
         mat = [flat[0:3], flat[3:6], flat[6:9]]
         try:
-            out[i] = calc(wb_dict(mat, g, h))
+            out[i] = calc(wb_dict(mat, g, h, g2))
         except Exception as e:
             out[i] = 'exc:' + type(e).__name__
     print('SEEDRESULT ' + json.dumps(out, sort_keys=True, default=str))
